@@ -17,7 +17,7 @@
 (*   End                          everything read back and re-encoded      *)
 (*   RT   v out ret avail again   a complete one-value history in one step *)
 (*   RTs  sp in out rsp rin avail again   the same for a DEEP value, given  *)
-(*                                by its spine (ValueCodec!Spine): sp/in   *)
+(*                                by its spine (ValueSpine!Spine): sp/in   *)
 (*                                the value written, rsp/rin the object    *)
 (*                                read back, walked down the same way      *)
 (*   RTd  (same fields)           the same, judged level by level (depths  *)
@@ -79,16 +79,18 @@ TraceRTs == /\ Step("RTs")
                       /\ e.avail = Len(wire') - (rpos' - 1)
                       /\ e.again = again'[1]
 
-\* a deep value judged level by level (ValueCodec!SpineEnc ...: the depth TLC's recursive
+\* a deep value judged level by level (ValueSpine!SpineEnc ...: the depth TLC's recursive
 \* operators can afford is a few hundred): the bytes are the reference encoding, the object read
 \* back is the value written, nothing is left in the input, the re-encoding is the same bytes.
 \* The stream variables are left empty: the verdict is in the step.
 TraceRTd == /\ Step("RTd")
             /\ LET e == Trace[l] IN
-                 /\ SpineIsValue(e.sp, e.in)
-                 /\ SpineOK(e.rsp)
+                 \* (X = TRUE: a quantifier over 20000 levels directly in an action is unrolled by
+                 \* recursion in TLC; as an operand of = it is evaluated by a loop)
+                 /\ SpineIsValue(e.sp, e.in) = TRUE
+                 /\ SpineOK(e.rsp) = TRUE
                  /\ e.out = SpineEnc(e.sp, e.in)
-                 /\ SameSpine(e.rsp, e.rin, e.sp, e.in)
+                 /\ SameSpine(e.rsp, e.rin, e.sp, e.in) = TRUE
                  /\ e.avail = 0
                  /\ e.again = e.out
             /\ vals' = <<>> /\ encs' = <<>> /\ wire' = <<>> /\ rpos' = 0 /\ backs' = <<>> /\ again' = <<>>
